@@ -53,6 +53,10 @@ CLAIMED = {
              ref="§7 C14", technique="Lean 4 proof (scan invariants, decide +kernel on the regenerated phred table) + bit-exact model/implementation correspondence"),
 }
 EXTRA_TEXT = {
+ "C03": " Added: the adapter index is part of the pipeline model (Matchable.indexed, Regroup.lean); indexed_pipeline_marked_slice states the slice property for the default, index-using "
+        "pipeline; half of the correspondence runs use the index.",
+ "C08": " Added: _split_adapters / _regroup_into_indexed_adapters modelled (Regroup.lean): regroup_noop, regroup_entries, regroup_wf, split_positions_perm, regroup_origin_perm "
+        "(regrouping refers to every given adapter exactly once); the index object is a constructor of the pipeline's Matchable, so pipeline-level correspondence runs in index mode.",
  "C05": " Added: PairedEndRenamer keeps the ids of the mates matched (paired_rename_keeps_ids_matched); --pair-adapters ranks with repeated sequences; interleaved untrimmed stream.",
  "C06": " Added: Statistics.__iadd__ and the per-adapter __iadd__ methods are modelled concretely (StatsMerge.lean) and proved to add: merging the statistics of the chunks of any "
         "chunking, in any order, gives the figures of the whole run (merged_statistics_of_any_chunking, merged_statistics_order_independent, statistics_merge_comm_assoc, "
